@@ -104,9 +104,10 @@ def main():
     ap.add_argument('--jobs', type=int, default=3)
     ap.add_argument('--seed', type=int, default=1)
     ap.add_argument('--out', default='/tmp/mutation_results.jsonl')
+    ap.add_argument('--skip', default='', help='comma-separated contract names to leave out (functions whose values no property specifies)')
     a = ap.parse_args()
     names = contract_names()
-    muts = gen(a.files.split(','), names)
+    muts = [m for m in gen(a.files.split(','), names) if m['fn'] not in set(a.skip.split(','))]
     random.Random(a.seed).shuffle(muts)
     muts = muts[:a.max]
     print('%d mutants' % len(muts), flush=True)
